@@ -472,15 +472,14 @@ where
         feature_class: u64,
         only_baked: bool,
     ) -> (TrackDistanceOk<OA>, TrackDistanceErr<OA>) {
-        let tracks_vec = self.fetch_tracks(tracks);
+        // the candidates stay in the store (they are copied under their shard's lock), so that every worker
+        // sees all of them whenever it runs and the store is never observed without them
+        let tracks_vec = tracks
+            .iter()
+            .filter_map(|track_id| self.get_store(*track_id as usize).get(track_id).cloned())
+            .collect::<Vec<_>>();
 
-        let res = self.foreign_track_distances(tracks_vec.clone(), feature_class, only_baked);
-
-        for t in tracks_vec {
-            self.add_track(t).unwrap();
-        }
-
-        res
+        self.foreign_track_distances(tracks_vec, feature_class, only_baked)
     }
 
     /// returns the store shard for id
